@@ -662,6 +662,37 @@ func genTemplate(t *rapid.T, pf Profile, w *World) Pod {
 			p.Fraction = pickS(t, "fraction", "0.5", "0.25", "0.3", "0.7", "0.1", "0.9", "0.33")
 		case 2:
 			p.GPUMemory = pickInt(t, "gpuMemory", 2000, 4000, 8000, 10000, 16000)
+			// requests at and just around the memory of an existing device (the scheduler turns MiB into a portion
+			// of the node's device, in hundredths; a request slightly above the device must not become portion 1.00)
+			if chance(t, 3, "gpuMemoryNearDevice") {
+				var mems []int
+				for _, n := range w.Nodes {
+					if n.GPUs > 0 && n.GPUMem > 0 && n.MigStrategy != "mixed" {
+						mems = append(mems, n.GPUMem, n.GPUMem-n.GPUMem%100)
+					}
+				}
+				if len(mems) > 0 {
+					m := mems[uniform(t, len(mems), "nearDeviceOf")]
+					switch between(t, 0, 7, "nearDeviceKind") {
+					case 0:
+						p.GPUMemory = m
+					case 1:
+						p.GPUMemory = m + 1
+					case 2:
+						p.GPUMemory = m + m/400
+					case 3:
+						p.GPUMemory = m + m/210
+					case 4:
+						p.GPUMemory = m + m/100
+					case 5:
+						p.GPUMemory = m - 1
+					case 6:
+						p.GPUMemory = m/2 + 1
+					case 7:
+						p.GPUMemory = m/2 + m/300
+					}
+				}
+			}
 		case 3:
 			p.Fraction = pickS(t, "mfFraction", "0.5", "0.25", "0.6")
 			p.Devices = pickInt(t, "devices", 2, 2, 3)
